@@ -52,6 +52,15 @@ def reject_variants(doc):
             d5 = copy.deepcopy(d0)
             d5[i]["extra_first"] = [raw("Path", "Path", "{}")]
             res.append(("empty_object", d5))
+            # the body is a reference to a type that is not an object (one per kind of non-object type)
+            for nm, tdef in (("ref_regex_type", ["TYPE @zpv regex", "/ab+/"]), ("ref_any_type", ["TYPE @zpv any"]),
+                             ("ref_scalar_type", ["TYPE @zpv", "1"]), ("ref_array_type", ["TYPE @zpv", "[1]"]),
+                             ("ref_undefined_type", []), ("ref_chain_to_regex", ["TYPE @zpv", "@zpw", "TYPE @zpw regex", "/ab+/"])):
+                d6 = copy.deepcopy(d0)
+                d6[i]["extra_first"] = [raw("Path", "Path", "@zpv")]
+                if tdef:
+                    d6.append(raw("TYPE", *tdef))
+                res.append((nm, d6))
             break
     m = {"verb": "GET", "annot": "", "desc": "", "tags": [], "query": "", "reqHeaders": False, "pathdecl": [],
          "req": {"form": "none", "b": {"k": "none", "n": "", "props": [], "allOf": []}},
@@ -61,13 +70,39 @@ def reject_variants(doc):
     return res
 
 
+def shortcut_forms(doc):
+    """The Path body written inline, as a reference to an object type, and as a reference to a type that
+    is itself only a reference: the three forms must give the same path variables."""
+    for i, b in enumerate(doc):
+        if b["t"] == "url" and any(s.startswith("{") for s in b["path"]) and b["methods"]:
+            par = [s[1:-1] for s in b["path"] if s.startswith("{")]
+            d0 = copy.deepcopy(doc)
+            d0[i]["pathdecl"] = []
+            for m in d0[i]["methods"]:
+                m["pathdecl"] = []
+            body = ["{"] + ['  "%s": 1%s' % (p, "," if k < len(par) - 1 else "") for k, p in enumerate(par)] + ["}"]
+            inline = copy.deepcopy(d0)
+            inline[i]["extra_first"] = [raw("Path", "Path", *body)]
+            one = copy.deepcopy(d0)
+            one[i]["extra_first"] = [raw("Path", "Path", "@zpv")]
+            one.append(raw("TYPE", "TYPE @zpv", *body))
+            two = copy.deepcopy(d0)
+            two[i]["extra_first"] = [raw("Path", "Path", "@zpw")]
+            two += [raw("TYPE", "TYPE @zpw", "@zpv"), raw("TYPE", "TYPE @zpv", *body)]
+            three = copy.deepcopy(d0)
+            three[i]["extra_first"] = [raw("Path", "Path", "@zpx")]
+            three += [raw("TYPE", "TYPE @zpv", *body), raw("TYPE", "TYPE @zpx", "@zpw"), raw("TYPE", "TYPE @zpw", "@zpv")]
+            return [("inline", inline), ("shortcut", one), ("shortcut_chain2", two), ("shortcut_chain3", three)]
+    return []
+
+
 def main(tier):
     chk = Check("C13", tier)
     thorough = tier == "thorough"
     docs = []
     for i, (n, mb) in enumerate([(12000, 3), (12000, 5)] if thorough else [(1200, 3), (1200, 5)]):
         docs += c04.gen_docs(chk, n, mb, seed() * 100 + 40 + i, features=FEATS, workers=8 if thorough else 4)
-    cases, meta, rej = [], {}, {}
+    cases, meta, rej, shorts = [], {}, {}, {}
     withvars = 0
     for n, m in enumerate(docs):
         if not m["valid"]:
@@ -83,6 +118,12 @@ def main(tier):
                 t = apidoc.render(rd)[0]
                 cases.append(rel.case(rid, t))
                 rej[rid] = (nm, m, t)
+            forms = shortcut_forms(d)
+            for nm, fd in forms:
+                t = apidoc.render(fd)[0]
+                cases.append(rel.case("s%d_%s" % (n, nm), t))
+            if forms:
+                shorts[n] = [(nm, apidoc.render(fd)[0]) for nm, fd in forms]
     obs = harness("run", cases)
     for cid, (m, text) in meta.items():
         o = obs[cid]
@@ -114,12 +155,35 @@ def main(tier):
             sig = {"what": "not rejected", "variant": nm, "outcome": o["outcome"]}
             chk.violation("%s must be rejected, observed %s | document:\n%s" % (nm, rel.describe(o), t[:1200]),
                           {"kind": "path_reject", "variant": nm, "file": t, "observed": o, "signature": sig}, sig)
+    for n, forms in shorts.items():
+        base = obs["s%d_inline" % n]
+        chk.evaluations += 1
+        if base["outcome"] != "ok":
+            continue                    # the inline form is not acceptable for its own reasons (e.g. a parameter declared twice)
+        bv = {i["id"]: i["pathvars"] for i in apidoc.project(base["json"])[0]["interactions"]}
+        for nm, t in forms[1:]:
+            o = obs["s%d_%s" % (n, nm)]
+            chk.traces += 1
+            chk.nontrivial.add(nm + t)
+            bad = None
+            if o["outcome"] != "ok":
+                bad = "Path body by reference (%s) not accepted although the inline form is: %s" % (nm, rel.describe(o))
+            else:
+                hv = {i["id"]: i["pathvars"] for i in apidoc.project(o["json"])[0]["interactions"]}
+                if hv != bv:
+                    k = next(k for k in set(bv) | set(hv) if bv.get(k) != hv.get(k))
+                    bad = "pathVariables of %s with the Path body by reference (%s): %s, inline: %s" % (k, nm, hv.get(k), bv.get(k))
+            if bad:
+                sig = {"what": "shortcut", "variant": nm}
+                chk.violation(bad + " | document:\n" + t[:1500], {"kind": "path_shortcut", "variant": nm, "file": t,
+                              "inline": forms[0][1], "observed": o, "signature": sig}, sig)
+    chk.extra["shortcut_form_groups"] = len(shorts)
     chk.extra["documents_with_declared_path_variables"] = withvars
     if meta:
         x = next(iter(meta.values()))
         chk.sample({"doc": x[0]["doc"], "expected_pathvars": {i["id"]: i["pathvars"] for i in x[0]["cat"][0]["interactions"]}})
     chk.rule = ("valid TLC-generated path trees; for each interaction the list of bound parameter names in path order; plus 7 "
-                "faulty variants per sampled document")
+                "faulty variants per sampled document (7 shapes + 6 references to non-object types) and 3 by-reference forms of the Path body")
     chk.assumptions += ["declared schemas are integers; 'each with the declared schema' is checked on the key only"]
     return chk.finish()
 
